@@ -148,8 +148,8 @@ pub fn step_cfg(step: u8) -> Cfg {
     }
 }
 
-/// The same configuration step read off a different clock: variant 1 configures the offset +09:00
-/// (both spellings) and a clock nine hours earlier, variant 2 puts `now` 750 ms after
+/// The same configuration step read off a different clock: variant 1 configures another offset
+/// (+09:00, +0900, -03:30, -0945) and a clock shifted by as much, variant 2 puts `now` 750 ms after
 /// T_k (at step 2 that is 250 ms before T_3, at step 0 250 ms before T_1: still not expired),
 /// variant 3 puts it 250 ms after T_k, spelled in the +09:00 zone, with the target names in
 /// reverse order. Readiness of every level is the same as under `step_cfg(step)`.
@@ -160,8 +160,15 @@ pub fn step_cfg_var(step: u8, var: u64) -> Cfg {
             // another configured offset: the `to` values are wall-clock times at that offset, so
             // the same readiness needs a clock reading nine hours earlier
             let e = crate::refmodel::parse_rfc3339(&c.now).expect("step clock");
-            c.now = crate::refmodel::fmt_rfc3339(e - 32400, if var % 8 == 1 { 0 } else { -18000 });
-            c.offset = if var % 8 == 1 { "+09:00".to_string() } else { "+0900".to_string() };
+            // (offsets east and west of Greenwich, with and without minutes, both spellings)
+            let (off_s, off): (&str, i64) = match (var / 4) % 4 {
+                0 => ("+09:00", 32400),
+                1 => ("+0900", 32400),
+                2 => ("-03:30", -12600),
+                _ => ("-0945", -35100),
+            };
+            c.now = crate::refmodel::fmt_rfc3339(e - off, if var % 8 == 1 { 0 } else { -18000 });
+            c.offset = off_s.to_string();
         }
         2 => c.now = format!("{}.750{}", &c.now[..19], &c.now[19..]),
         3 => {
